@@ -681,6 +681,12 @@ func (s *Sim) unansweredShape(c *Client, r *CReq) string {
 		if at, ok := c.Revoked[x]; ok && at >= r.Step {
 			return "unsubscribe-event-while-pending"
 		}
+		// ... or earlier, while another request on it was pending: that request
+		// then released a count the event had already removed, and this one was
+		// issued on a subscription whose count had gone below zero
+		if c.F3bRids[x] {
+			return "unsubscribe-event-while-pending"
+		}
 	}
 	if (r.Action == "call" || r.Action == "new") && s.callAccessDropped(c, r) {
 		return "call-access-callback-dropped"
